@@ -68,7 +68,7 @@ Section C11.
 End C11.
 
 (* the channel list: type 0 on a dynamic plan sets channels J..J+4 (0 = remove, in-band = define with DR0..5, out-of-band
-   = ignored, everything else untouched, never a panic); type 1 on a fixed plan replaces the mask; any other combination is ignored *)
+   = ignored, everything else untouched, never a panic); type 1 on a fixed plan replaces the mask, without it a fixed plan starts again from the default mask; any other combination is ignored *)
 Theorem C11_cflist : forall g c, region_wf g ->
   match rg_plan g, c with
   | PDyn p, CflDyn fs => length fs = 5 ->
@@ -80,6 +80,7 @@ Theorem C11_cflist : forall g c, region_wf g ->
           then option_map (fun old => cfl_entry (rg_id g) old (nth (k - j) fs 0%N)) (nth_error (dp_channels p) k)
           else nth_error (dp_channels p) k
   | PFix p, CflFix m => region_join_accept g c = Val {| rg_id := rg_id g; rg_plan := PFix {| fp_mask := m; fp_jc := jc_reset (fp_jc p) |} |}
+  | PFix p, _ => region_join_accept g c = Val {| rg_id := rg_id g; rg_plan := PFix {| fp_mask := mask_default; fp_jc := fp_jc p |} |}
   | _, _ => region_join_accept g c = Val g
   end.
 Proof. exact cflist_applied. Qed.
